@@ -10,6 +10,10 @@ import (
 	"github.com/bronlabs/bron-crypto/pkg/mpc/sharing"
 	"github.com/bronlabs/bron-crypto/pkg/mpc/sharing/accessstructures"
 	"github.com/bronlabs/bron-crypto/pkg/mpc/sharing/vss/feldman"
+	"github.com/bronlabs/bron-crypto/pkg/proofs/sigma/compiler/fiatshamir"
+
+	dgen "verif/harness/internal/drive/gennaro"
+	"verif/harness/internal/vh"
 )
 
 // Dealt is what the trusted dealer hands out for one group: one base shard per holder,
@@ -54,4 +58,53 @@ func Deal[G algebra.PrimeGroupElement[G, S], S algebra.PrimeFieldElement[S]](gro
 		return nil, fmt.Errorf("dealer: public key is not secret·G")
 	}
 	return d, nil
+}
+
+// Material produces key material for policy p over group from the source named by
+// c.KeySource: "" / "dealer" — the trusted dealer above on the stream
+// vh.NewRng(c.Seed, c.Prop, "deal", 0); "gennaro" — the real Gennaro DKG among all holders
+// of the policy, driven by drive/gennaro (tapes keyed by c.Prop+"-dkg", seeded session
+// contexts, Fiat–Shamir compiler); the joint secret is then reconstructed from all shares
+// (it exists nowhere in a DKG) so that the check can tie signatures to the exponent model.
+func Material[G algebra.PrimeGroupElement[G, S], S algebra.PrimeFieldElement[S]](c Common, group algebra.PrimeGroup[G, S], p Policy) (*Dealt[G, S], error) {
+	switch c.KeySource {
+	case "", "dealer":
+		return Deal[G, S](group, p, vh.NewRng(c.Seed, c.Prop, "deal", 0))
+	case "gennaro":
+		ac, err := p.Build()
+		if err != nil {
+			return nil, fmt.Errorf("policy refused: %w", err)
+		}
+		holders := p.Holders()
+		ctxs, err := Contexts(Common{Seed: c.Seed, Prop: c.Prop + "-dkg", Quorum: holders, Session: "seeded"})
+		if err != nil {
+			return nil, fmt.Errorf("dkg contexts: %w", err)
+		}
+		res := dgen.RunFull(dgen.Config[G, S]{Seed: c.Seed, Prop: c.Prop + "-dkg", Group: group, AC: ac, Compiler: fiatshamir.Name, Ctxs: ctxs})
+		d := &Dealt[G, S]{Policy: p, AC: ac, Shards: map[sharing.ID]*mpc.BaseShard[G, S]{}, Holders: holders}
+		scheme, err := feldman.NewScheme(group, ac)
+		if err != nil {
+			return nil, err
+		}
+		var shares []*feldman.Share[S]
+		for _, id := range holders {
+			sh, ok := res.Shards[id]
+			if !ok || sh == nil {
+				return nil, fmt.Errorf("gennaro DKG did not complete for %d: %s", uint64(id), res.Trace.Verdicts[id].Detail)
+			}
+			d.Shards[id] = sh
+			d.PK = sh.PublicKeyValue()
+			shares = append(shares, sh.Share())
+		}
+		sec, err := scheme.Reconstruct(shares...)
+		if err != nil {
+			return nil, fmt.Errorf("reconstructing the DKG key: %w", err)
+		}
+		d.Secret = sec.Value()
+		if !group.ScalarBaseOp(d.Secret).Equal(d.PK) {
+			return nil, fmt.Errorf("dkg: public key is not secret·G")
+		}
+		return d, nil
+	}
+	return nil, fmt.Errorf("unknown key source %q", c.KeySource)
 }
